@@ -11,6 +11,18 @@ TB = ("Coq 8.16.1 kernel (+vm_compute); no axioms of our own (Print Assumptions 
       "tied by regeneration/correspondence on the cases run")
 
 CHECKS = {
+    "C09": dict(
+        engine="E1 gc",
+        technique="Coq proof of heap-bookkeeping invariants and exact collection over all operation histories of a model of gc.c; op-history correspondence (exact addresses, lists, marks, objects) with the real gc.c + property oracle on the real heap",
+        text="proof: WF/Closed invariants over every finite history, alloc hands out a free cell, cells conserved, collection leaves exactly the reachable cells allocated (payload untouched), fuel of the recursive mark suffices, bounded live data never runs out of memory — all about coq/GC/GCModel.v; the model is tied to back/gc.c by executing generated histories on both (the model predicts every address, both lists, free chain, marks and objects after every op) and an independent reachability oracle on the real heap",
+        ref="DESIGN.md §5 C09",
+        note=TB + "; not modelled: host recursion depth of gc_mark, malloc failure, OBJECT_UNKNOWN"),
+    "C12": dict(
+        engine="E3 index",
+        technique="Coq proofs about models of object_arr_dim_mult/addr, vm_get_slice_range and the deref/slice/string handlers' guards; exhaustive small-extent + random direct-call correspondence and probe programs under ASan",
+        text="proof: row-major addressing exact and injective for in-range tuples, oob reported for the first offending dimension, range/slice composition denotes exactly the composed positions in all four directions, string index/slice guards, shape conformance, exception-table search spec; refuted statements (overflow cases) are proved as _refuted with witnesses and listed as known findings; tie: direct calls into the tree's object.c/vmexec.c/exctab.c (exhaustive for <=3 dims, extents <=4, ranges in [-1,5]^4) and handler-level probe programs",
+        ref="DESIGN.md §5 C12",
+        note=TB + "; handler-level behaviour is tied through probe programs, not by a model of the whole VM"),
     "C07": dict(
         engine="E4 verifier",
         technique="Coq proof of a bytecode verifier (certificate checker) sound for a stack-shape machine along all paths; extracted checker run on every compiled module; lock-step of the machine on real register traces",
